@@ -20,7 +20,7 @@ import rsx  # noqa: E402
 
 VERIF = B.VERIF
 WORK = os.path.join(VERIF, "work")
-RLIMIT = os.environ.get("VERIF_RLIMIT", "40")
+RLIMIT = os.environ.get("VERIF_RLIMIT", "100")
 
 # Messages by which Verus reports an obligation that the solver refuted or could not discharge.
 VERIFICATION_FAILURES = [
